@@ -11,7 +11,8 @@ from concurrent.futures import ThreadPoolExecutor
 
 NCTX = 4
 
-# always part of the corpus: the basic shapes and the witnesses of the known trait defects
+# always part of the corpus: the basic shapes and the witnesses of the repaired trait defects
+# (dematerialize∘materialize over a done-sending source, with_query_value replacing get_scheduler)
 FIXED = [
     "(just 1)", "(jdone)", "(sleaf 1)", "(sched i 1)", "(sched 2 1)", "(scur 1)", "(never)",
     "(via 2 5 (just 1))", "(tvia 1 5 (just 1))", "(on 1 3 (scur 4))", "(on i 3 (just 4))",
